@@ -210,11 +210,13 @@ type srcDeco struct {
 	r        *rand.Rand
 	g        *Gram
 	nextT    int
-	names    []string         // arrow names handed out so far
-	listSpec map[int][2]int   // element symbol -> (plus, sep) of the first list built over it
-	listed   map[int]int      // element symbol -> number of lists over it
-	features map[string]bool  // what the grammar contains (for the distribution)
+	names    []string        // arrow names handed out so far
+	listSpec map[int][2]int  // element symbol -> (plus, sep) of the first list built over it
+	listed   map[int]int     // element symbol -> number of lists over it
+	features map[string]bool // what the grammar contains (for the distribution)
 	nullable []bool
+	fresh    []int // terminals used by inserted lists only
+	fixWS    bool
 }
 
 func (d *srcDeco) arrow(prefix string) string {
@@ -303,8 +305,24 @@ func (d *srcDeco) wrap(nodes []*SNode, depth int) []*SNode {
 		grp.Opt = true
 		d.features["optional group"] = true
 	}
-	if grp.Arrow == "" && !grp.Opt {
+	if canBeAbsent(grp.Kids) {
+		grp.Opt = false // `((x)?)?` has two ways of being absent
+		if grp.Arrow == "" {
+			grp.Arrow = d.arrow("T")
+		}
+	} else if grp.Arrow == "" {
 		grp.Opt = true
+	}
+	if d.r.Intn(10) == 0 {
+		// a state marker inside the group (at its start, end or in the middle)
+		pos := d.r.Intn(len(grp.Kids) + 1)
+		m := &SNode{Kind: skMarker, Name: fmt.Sprintf("m%d", d.r.Intn(2))}
+		grp.Kids = append(append(append([]*SNode(nil), grp.Kids[:pos]...), m), grp.Kids[pos:]...)
+		d.features["state marker inside a group"] = true
+	}
+	if grp.Opt && e < len(nodes) && d.r.Intn(3) == 0 {
+		// an arrow AROUND an optional part: an empty node when the part is absent
+		grp = &SNode{Kind: skGroup, Kids: []*SNode{grp}, Arrow: d.arrow("O")}
 	}
 	var out []*SNode
 	out = append(out, d.wrap(append([]*SNode(nil), nodes[:s]...), depth+1)...)
@@ -328,11 +346,34 @@ func (d *srcDeco) rule(rl GRule) SRule {
 			nodes[k] = d.mkList([]*SNode{n})
 		}
 	}
+	// an inserted list over a fresh terminal, mostly at the end of the rule
+	if d.r.Intn(5) < 2 {
+		el := d.fresh[0]
+		if d.r.Intn(4) == 0 {
+			el = d.fresh[1]
+		}
+		l := d.mkList([]*SNode{symNode(el)})
+		if l.Sep != 0 {
+			// separators of inserted lists are fresh as well
+			l.Sep = d.fresh[0] + d.fresh[1] - el
+			if spec, ok := d.listSpec[el]; ok {
+				d.listSpec[el] = [2]int{spec[0], l.Sep}
+			}
+		}
+		pos := len(nodes)
+		if d.r.Intn(2) == 0 {
+			pos = d.r.Intn(len(nodes) + 1)
+		}
+		nodes = append(append(append([]*SNode(nil), nodes[:pos]...), l), nodes[pos:]...)
+	}
 	// a list over two adjacent symbols
-	if len(nodes) >= 2 && d.r.Intn(8) == 0 {
+	if len(nodes) >= 2 && d.r.Intn(5) == 0 {
 		k := d.r.Intn(len(nodes) - 1)
-		if nodes[k].Kind == skSym && nodes[k+1].Kind == skSym && nodes[k].Sym < d.g.NT {
-			l := d.mkList([]*SNode{nodes[k], nodes[k+1]})
+		if nodes[k].Kind == skSym && (nodes[k+1].Kind == skSym || nodes[k+1].Kind == skList) && nodes[k].Sym < d.g.NT {
+			if nodes[k+1].Kind == skList {
+				d.features["list inside a list element"] = true
+			}
+			l := d.mkList(d.wrap([]*SNode{nodes[k], nodes[k+1]}, 1))
 			nodes = append(append(append([]*SNode(nil), nodes[:k]...), l), nodes[k+2:]...)
 		}
 	}
@@ -360,19 +401,21 @@ func (d *srcDeco) rule(rl GRule) SRule {
 		}
 	}
 	nodes = d.wrap(nodes, 0)
-	// state markers: mostly at the very end (behind a possibly nullable tail)
-	if len(nodes) > 0 && d.r.Intn(3) == 0 {
-		pos := len(nodes)
-		if d.r.Intn(3) == 0 {
+	// state markers: mostly at the very end, in particular behind a nullable tail
+	if len(nodes) > 0 {
+		nullTail := d.nullTail(nodes)
+		pos := -1
+		switch {
+		case nullTail && (d.fixWS || d.r.Intn(2) == 0):
+			pos = len(nodes)
+			d.features["marker behind a nullable tail"] = true
+		case d.r.Intn(4) == 0:
 			pos = d.r.Intn(len(nodes) + 1)
 		}
-		m := &SNode{Kind: skMarker, Name: fmt.Sprintf("m%d", d.r.Intn(2))}
-		nodes = append(append(append([]*SNode(nil), nodes[:pos]...), m), nodes[pos:]...)
-		d.features["state marker"] = true
-		if pos == len(nodes)-1 && pos > 0 {
-			if p := nodes[pos-1]; (p.Kind == skSym && d.nullable[p.Sym]) || (p.Kind == skList && !p.Plus) {
-				d.features["marker behind a nullable tail"] = true
-			}
+		if pos >= 0 {
+			m := &SNode{Kind: skMarker, Name: fmt.Sprintf("m%d", d.r.Intn(2))}
+			nodes = append(append(append([]*SNode(nil), nodes[:pos]...), m), nodes[pos:]...)
+			d.features["state marker"] = true
 		}
 	}
 	d.fixEmptyArrows(nodes)
@@ -382,6 +425,30 @@ func (d *srcDeco) rule(rl GRule) SRule {
 		out.Arrow = fmt.Sprintf("R%d", d.nextT)
 	}
 	return out
+}
+
+// nullTail: some expansion of the sequence ends in a nullable nonterminal or a star list.
+func (d *srcDeco) nullTail(nodes []*SNode) bool {
+	for k := len(nodes) - 1; k >= 0; k-- {
+		switch n := nodes[k]; n.Kind {
+		case skMarker:
+			continue
+		case skSym:
+			return d.nullable[n.Sym]
+		case skList:
+			return !n.Plus
+		case skGroup:
+			return d.nullTail(n.Kids)
+		case skChoice:
+			for _, a := range n.Kids {
+				if d.nullTail(a.Kids) {
+					return true
+				}
+			}
+			return false
+		}
+	}
+	return false
 }
 
 // fixEmptyArrows: `( (x)? -> T )` with nothing mandatory behind it in the same sequence would be an
@@ -421,13 +488,168 @@ func mandatory(nodes []*SNode) {
 	}
 }
 
-// decorateSrc turns a plain grammar into an annotated source grammar.
-func decorateSrc(r *rand.Rand, g *Gram) (*SGram, map[string]bool) {
+// decorateSrc turns a plain grammar into an annotated source grammar. Two fresh terminals (used by
+// nothing else) are added to the alphabet; lists over them are inserted into rules (a fresh element
+// rarely introduces a conflict), so most grammars get several lists over the SAME element.
+func decorateSrc(r *rand.Rand, g0 *Gram, fixWS bool) (*SGram, map[string]bool) {
+	const extra = 2
+	g := &Gram{NT: g0.NT + extra, NN: g0.NN, Shape: g0.Shape}
+	mv := func(s int) int {
+		if s >= g0.NT {
+			return s + extra
+		}
+		return s
+	}
+	for _, rl := range g0.Rules {
+		nr := GRule{LHS: mv(rl.LHS)}
+		for _, s := range rl.RHS {
+			nr.RHS = append(nr.RHS, mv(s))
+		}
+		g.Rules = append(g.Rules, nr)
+	}
+	for _, in := range g0.Inputs {
+		g.Inputs = append(g.Inputs, GInput{Sym: mv(in.Sym), Eoi: in.Eoi})
+	}
+	// nonterminals that no input reaches become inputs themselves (their rules would be dead otherwise)
+	reach := map[int]bool{}
+	var visit func(s int)
+	visit = func(s int) {
+		if reach[s] {
+			return
+		}
+		reach[s] = true
+		for _, rl := range g.Rules {
+			if rl.LHS == s {
+				for _, x := range rl.RHS {
+					if x >= g.NT {
+						visit(x)
+					}
+				}
+			}
+		}
+	}
+	for _, in := range g.Inputs {
+		visit(in.Sym)
+	}
+	for s := g.NT; s < g.NT+g.NN; s++ {
+		if !reach[s] && r.Intn(5) != 0 {
+			g.Inputs = append(g.Inputs, GInput{Sym: s, Eoi: r.Intn(3) != 0})
+			visit(s)
+		}
+	}
 	d := &srcDeco{r: r, g: g, listSpec: map[int][2]int{}, listed: map[int]int{}, features: map[string]bool{}, nullable: g.Nullable()}
+	d.fresh = []int{g0.NT, g0.NT + 1}
+	d.fixWS = fixWS
 	sg := &SGram{NT: g.NT, NN: g.NN, Inputs: g.Inputs, names: g}
 	for _, rl := range g.Rules {
 		sg.Rules = append(sg.Rules, d.rule(rl))
 	}
+	return sg, d.features
+}
+
+// tmplSrc builds a "statement list" grammar that always contains the shapes the random decoration
+// only hits by chance: a rule ending in a nullable nonterminal / star list followed by a state
+// marker, two lists over the same element that differ only in their arrow (one possibly bare), and a
+// second (mostly no-eoi) input with node names used under that input only.
+//
+//	N0 (file)  : N1+ | (N1 -> E)+ | (N1 separator 'f')+ …
+//	N1 (stmt)  : 'a' N2 .m0 | 'b' LIST1('d') 'c' LIST2('d') TAIL .m1
+//	N2 (tail)  : ('e' -> T)? | 'e'* | %empty | 'e' 'e'
+//	N3 (expr)  : 'f' (N1 -> PI)? 'c' ('d' -> PL)* 'f' -> RP        (own names)
+func tmplSrc(r *rand.Rand) (*SGram, map[string]bool) {
+	const a, b, c, dd, e, f = 1, 2, 3, 4, 5, 6
+	g := &Gram{NT: 7, NN: 4, Shape: "template"}
+	n0, n1, n2, n3 := g.NT, g.NT+1, g.NT+2, g.NT+3
+	d := &srcDeco{r: r, g: g, listSpec: map[int][2]int{}, listed: map[int]int{}, features: map[string]bool{}, fresh: []int{e, f}}
+	sg := &SGram{NT: g.NT, NN: g.NN, names: g}
+	marker := func(k int) *SNode { return &SNode{Kind: skMarker, Name: fmt.Sprintf("m%d", k)} }
+	opt := func(p int) bool { return r.Intn(100) < p }
+	ruleArrow := func(p int) string {
+		if opt(p) {
+			d.nextT++
+			return fmt.Sprintf("R%d", d.nextT)
+		}
+		return ""
+	}
+	// file
+	fl := &SNode{Kind: skList, Kids: []*SNode{symNode(n1)}, Plus: opt(70)}
+	if opt(30) {
+		fl.Sep, fl.Plus = f, true
+	}
+	if opt(50) {
+		fl.Arrow = d.arrow("E")
+	}
+	if opt(25) {
+		fl.ListArrow = d.arrow("L")
+	}
+	sg.Rules = append(sg.Rules, SRule{LHS: n0, RHS: []*SNode{fl}, Arrow: ruleArrow(70)})
+	// statement A: 'a' N2 .m0
+	tailA := symNode(n2)
+	stA := []*SNode{symNode(a), tailA}
+	if opt(30) {
+		stA = []*SNode{symNode(a), {Kind: skGroup, Kids: []*SNode{tailA}, Arrow: d.arrow("T")}}
+	}
+	if opt(85) {
+		stA = append(stA, marker(0))
+	}
+	sg.Rules = append(sg.Rules, SRule{LHS: n1, RHS: stA, Arrow: ruleArrow(85)})
+	// statement B: 'b' LIST1 'c' LIST2 TAIL .m1
+	plus := opt(60)
+	sep := 0
+	if opt(30) {
+		sep, plus = e, true
+	}
+	l1 := &SNode{Kind: skList, Kids: []*SNode{symNode(dd)}, Plus: plus, Sep: sep, Arrow: d.arrow("E")}
+	l2 := &SNode{Kind: skList, Kids: []*SNode{symNode(dd)}, Plus: plus, Sep: sep}
+	if opt(65) {
+		l2.Arrow = d.arrow("E")
+	}
+	if opt(30) {
+		l1, l2 = l2, l1
+	}
+	if opt(20) {
+		l2.ListArrow = d.arrow("L")
+	}
+	stB := []*SNode{symNode(b), l1, symNode(c), l2}
+	switch r.Intn(4) {
+	case 0:
+		if sep != e {
+			stB = append(stB, &SNode{Kind: skList, Kids: []*SNode{symNode(e)}, Arrow: d.arrow("E")})
+		}
+	case 1:
+		if sep != e {
+			stB = append(stB, symNode(n2))
+		}
+	}
+	if opt(60) {
+		stB = append(stB, marker(1))
+	}
+	sg.Rules = append(sg.Rules, SRule{LHS: n1, RHS: stB, Arrow: ruleArrow(85)})
+	d.features["two lists over one element"] = true
+	d.features["marker behind a nullable tail"] = true
+	// tail
+	switch r.Intn(4) {
+	case 0:
+		sg.Rules = append(sg.Rules, SRule{LHS: n2, RHS: []*SNode{{Kind: skGroup, Kids: []*SNode{symNode(e)}, Arrow: d.arrow("T"), Opt: true}}, Arrow: ruleArrow(30)})
+	case 1:
+		sg.Rules = append(sg.Rules, SRule{LHS: n2, RHS: []*SNode{{Kind: skList, Kids: []*SNode{symNode(e)}, Arrow: d.arrow("E")}}, Arrow: ruleArrow(30)})
+	case 2:
+		sg.Rules = append(sg.Rules, SRule{LHS: n2, Arrow: ruleArrow(60)}, SRule{LHS: n2, RHS: []*SNode{symNode(e), symNode(e)}, Arrow: ruleArrow(60)})
+	default:
+		sg.Rules = append(sg.Rules, SRule{LHS: n2, RHS: []*SNode{{Kind: skGroup, Kids: []*SNode{symNode(e)}, Opt: true}}})
+	}
+	// the second input with its own names
+	pl := &SNode{Kind: skList, Kids: []*SNode{symNode(dd)}, Arrow: "PL"}
+	ex := []*SNode{symNode(f), {Kind: skGroup, Kids: []*SNode{symNode(n1)}, Arrow: "PI", Opt: true}, symNode(c), pl, symNode(f)}
+	if opt(40) {
+		ex = append(ex, marker(0))
+	}
+	sg.Rules = append(sg.Rules, SRule{LHS: n3, RHS: ex, Arrow: "RP"})
+	sg.Inputs = []GInput{{Sym: n0, Eoi: true}, {Sym: n3, Eoi: opt(25)}}
+	if opt(30) {
+		sg.Inputs = append(sg.Inputs, GInput{Sym: n1, Eoi: true})
+	}
+	d.features["template"] = true
 	return sg, d.features
 }
 
@@ -718,21 +940,18 @@ func (o *srcOracle) cntNode(n *SNode, i, j int) int {
 		}
 		return v
 	case skList:
-		return o.cntList(n, i, j, true)
+		return o.cntList(n, i, j)
 	}
 	return 0
 }
 
-// cntList: number of ways to split toks[i:j] into list iterations (first = may be the empty list).
-func (o *srcOracle) cntList(n *SNode, i, j int, first bool) int {
-	v := 0
-	if first {
-		if !n.Plus && i == j {
-			v = 1 // the empty list
-		}
-		return cap2(v + o.cntIter(n, i, j))
+// cntList: number of ways to split toks[i:j] into list iterations (or the empty list).
+func (o *srcOracle) cntList(n *SNode, i, j int) int {
+	v := o.cntIter(n, i, j)
+	if !n.Plus && i == j {
+		v++ // the empty list
 	}
-	return o.cntIter(n, i, j)
+	return cap2(v)
 }
 
 // cntIter: toks[i:j] = elem (sep elem)*, at least one element.
@@ -856,47 +1075,49 @@ func (o *srcOracle) walkNode(n *SNode, i, j int, f *srcFrame) {
 			f.inline = append(f.inline, srcEvent{n.Arrow, s, e})
 		}
 	case skList:
-		var acc *srcItem // the list so far
-		p := i
-		for p < j || (i == j && acc == nil && n.Plus) || (i == j && acc == nil && o.cntIter(n, i, j) > 0 && false) {
-			// find the end k of the next element
-			k := -1
-			for c := p; c <= j; c++ {
-				if o.cntSeq(n.Kids, p, c) == 0 {
-					continue
+		var acc *srcItem // the list so far (one entry of the enclosing rule)
+		if n.Plus || i < j {
+			p := i
+			for {
+				// the next element is toks[p:k]
+				k := -1
+				for c := p; c <= j; c++ {
+					if o.cntSeq(n.Kids, p, c) == 0 {
+						continue
+					}
+					if c == j || (n.Sep != 0 && o.toks[c].sym == n.Sep && o.cntIter(n, c+1, j) > 0) || (n.Sep == 0 && c > p && o.cntIter(n, c, j) > 0) {
+						k = c
+						break
+					}
 				}
-				if c == j || (n.Sep != 0 && o.toks[c].sym == n.Sep && o.cntIter(n, c+1, j) > 0) || (n.Sep == 0 && c > p && o.cntIter(n, c, j) > 0) {
-					k = c
+				if k < 0 {
 					break
 				}
-			}
-			if k < 0 {
-				break
-			}
-			it := &srcFrame{}
-			if acc != nil {
-				it.items = append(it.items, *acc)
-			}
-			var sepIdx = -1
-			if acc != nil && n.Sep != 0 {
-				sepIdx = p - 1
-				it.items = append(it.items, srcItem{o.toks[sepIdx].off, o.toks[sepIdx].end})
-			}
-			start := len(it.items)
-			o.walkSeq(n.Kids, p, k, it)
-			if n.Arrow != "" {
-				s, e := o.span(it.items[start:], k)
-				it.inline = append(it.inline, srcEvent{n.Arrow, s, e})
-			}
-			f.evs = append(f.evs, it.evs...)
-			f.evs = append(f.evs, it.inline...)
-			s, e := o.span(it.items, k)
-			acc = &srcItem{s, e}
-			p = k
-			if p < j && n.Sep != 0 {
-				p++ // the separator
-			} else if p == j {
-				break
+				// one iteration = one rule instance `list: list sep elem | elem`
+				it := &srcFrame{}
+				if acc != nil {
+					it.items = append(it.items, *acc)
+					if n.Sep != 0 {
+						it.items = append(it.items, srcItem{o.toks[p-1].off, o.toks[p-1].end})
+					}
+				}
+				start := len(it.items)
+				o.walkSeq(n.Kids, p, k, it)
+				if n.Arrow != "" {
+					s, e := o.span(it.items[start:], k)
+					it.inline = append(it.inline, srcEvent{n.Arrow, s, e})
+				}
+				f.evs = append(f.evs, it.evs...)
+				f.evs = append(f.evs, it.inline...)
+				s, e := o.span(it.items, k)
+				acc = &srcItem{s, e}
+				if k == j {
+					break
+				}
+				p = k
+				if n.Sep != 0 {
+					p++
+				}
 			}
 		}
 		if acc == nil {
